@@ -69,7 +69,9 @@ def adjacent_inline_pairs(r, out):
     return out
 
 
-def check_output(ctx, r, out, wit, at0_allowed=True):
+def check_output(ctx, r, out, wit, at0_allowed=True, content_ws=False):
+    """content_ws: leaves may contain whitespace / eol characters themselves; then only the
+    contiguity rules (i) and (ii) are decidable (whitespace in a text position may be content)."""
     ctx.count("oracle.inline_ws")
     # (i) contiguity
     for s in maximal_inline_subtrees(r, []):
@@ -85,6 +87,9 @@ def check_output(ctx, r, out, wit, at0_allowed=True):
             ctx.violation("whitespace-between-inline-siblings", "adjacent inline siblings separated: expected %r" % e[:80], wit)
             return False
         ctx.count("rule_ii.pairs")
+    if content_ws:
+        ctx.count("content_ws_cases")
+        return True
     # (iii) every layout run touches a tag token of a ws-enabled element
     try:
         toks = tokenizer.tokenize(out)
@@ -139,19 +144,27 @@ def check_output(ctx, r, out, wit, at0_allowed=True):
     return True
 
 
-def check_case(ctx, r, indent, eol):
+def check_case(ctx, r, indent, eol, content_ws=False):
     try:
         obj = gen.build(r)
         out = obj.get_html_string(indent, eol)
     except Exception as e:
         ctx.violation("render-raises", "building/rendering raised %r" % e, {"recipe": r, "indent": indent, "eol": eol})
         return False
-    wit = {"recipe": r, "indent": indent, "eol": eol, "output": out[:1500]}
-    return check_output(ctx, r, out, wit)
+    wit = {"recipe": r, "indent": indent, "eol": eol, "output": out[:1500], "content_ws": content_ws}
+    return check_output(ctx, r, out, wit, content_ws=content_ws)
+
+
+def add_content_whitespace(rng, r, eol):
+    """Give some leaves internal / edge whitespace including the eol string in use."""
+    for x in gen.walk(r):
+        if x["k"] in ("text", "html", "obj") and rng.random() < 0.5:
+            mid = rng.choice(["\n", " ", eol or "\n", "\n\n", "\t", " \n  "])
+            x["s"] = rng.choice([x["s"] + mid + "z" + x["s"], mid + x["s"], x["s"] + mid, "<pre>" + x["s"] + mid + "q</pre>" if x["k"] != "text" else x["s"] + mid + "q"])
 
 
 def replay(ctx, w):
-    check_case(ctx, w["recipe"], w["indent"], w["eol"])
+    check_case(ctx, w["recipe"], w["indent"], w["eol"], w.get("content_ws", False))
 
 
 def nontrivial(r):
@@ -208,7 +221,10 @@ def _run(ctx):
             r = lg.rand_layout_tree(rng, ids, depth, valid=False, kinds_w=w, root_kind=rng.choice(["block", "inline", "inline"]))
         indent = rng.choice([0, 0, 1, 2, 4])
         eol = rng.choice(EOLS)
-        check_case(ctx, r, indent, eol)
+        cws = rng.random() < 0.3
+        if cws:
+            add_content_whitespace(rng, r, eol)
+        check_case(ctx, r, indent, eol, cws)
         ctx.case((r, indent, eol), nontrivial=nontrivial(r))
         for x in gen.walk(r):
             if x["k"] == "tag" and not x["ws"] and any(c["k"] == "tag" and c["ws"] for c in x["c"]):
